@@ -96,6 +96,26 @@ def run(ctx):
                     tabs['edge'] = cc.tab_of(f.mask, 'new_edge_index')
                 keep = {k: [i for i, x in enumerate(t) if x is not None] for k, t in tabs.items()}
                 dropped = any(len(keep[k]) < len(tabs[k]) for k in tabs)
+                # the selected edges and nodes are those of the selected faces (the input's own tables): data on an edge or node
+                # that belongs to no selected face lies outside the region
+                with warnings.catch_warnings():
+                    warnings.simplefilter('ignore')
+                    fn_ = attempt(lambda: cc.opt_rows(topo.face_node_array))
+                    fe_ = attempt(lambda: cc.opt_rows(topo.face_edge_array)) if 'edge' in tabs else ('skip', None)
+                sel_bad = None
+                if fn_[0] == 'ok':
+                    want_nodes = sorted({x.v for i in keep['face'] for x in fn_[1][i] if x is not None})
+                    if want_nodes != keep['node']:
+                        sel_bad = (f'nodes kept {keep["node"]}, the nodes of the selected faces are {want_nodes}: node variables would keep '
+                                   f'data from outside the region / lose data inside it')
+                if not sel_bad and fe_[0] == 'ok':
+                    want_edges = sorted({x.v for i in keep['face'] for x in fe_[1][i] if x is not None})
+                    if want_edges != keep['edge']:
+                        sel_bad = (f'edges kept {keep["edge"]}, the edges of the selected faces are {want_edges}: edge variables would keep '
+                                   f'data from outside the region / lose data inside it')
+                if sel_bad:
+                    ctx.report('property', sel_bad, case)
+                    continue
                 exprs.append('[' + '; '.join(f'kept_of {to_coq(tabs[k])}' for k in sorted(tabs)) + ']')
                 plans.append((case, [keep[k] for k in sorted(tabs)]))
                 geometry_names = {str(x) for x in target.ems.get_all_geometry_names()}
